@@ -146,7 +146,18 @@ func runWorker(prop, tier, shardS, nshardsS, dir string) int {
 	}
 	ctx := newCtx(prop, tier, seedFromEnv(), shard, nshards, kf)
 	ctx.openCrashBuf(filepath.Join(dir, fmt.Sprintf("crash.%d", shard)))
-	m.Run(ctx)
+	func() {
+		// a panic that escapes here is a defect of the harness itself (calls into /repo are
+		// recovered inside Ctx.Call): report the check as broken, accuse nobody
+		defer func() {
+			if r := recover(); r != nil {
+				buf := make([]byte, 4096)
+				buf = buf[:runtime.Stack(buf, false)]
+				ctx.Broken(fmt.Sprintf("harness panic in shard %d: %v\n%s", shard, r, buf))
+			}
+		}()
+		m.Run(ctx)
+	}()
 	ctx.finish()
 	// distinct hashes
 	df := filepath.Join(dir, fmt.Sprintf("distinct.%d", shard))
